@@ -14,10 +14,11 @@ reopen, `Cloud` = local store + commit log + poisoned mutex, `KVSpec` = ledger o
 All theorems are over arbitrary request lists (`runWith`), keys, versions and values; the redb theorems
 hold from every state satisfying `Redb.Inv` (the empty store does, and every request preserves it).
 
-"Both give identical results for identical request sequences" is FALSE for the code as it is (finding
-F8: a batch that repeats a key): `C16_mem_redb_equal` states it, `C16_mem_redb_equal_false` refutes it
-with the concrete witness, `C16_mem_redb_equal_partial` proves it for request lists whose batches have
-pairwise distinct keys, and `C16_redb_accepts_mem_accepts` shows the disagreement is one-directional.
+Finding F8 (a batch repeating a key was accepted by the memory store and refused by redb) is fixed in
+/repo (b41c142): both `put_batch` implementations now check every entry against the batch staged so far.
+The models describe the repaired code; `C16_batch_sequential` shows that both batches are exactly "the
+same sequence of `put_with_version` calls, all or nothing", and `C16_mem_redb_equal` is proved at full
+strength (every request sequence, batches repeating keys included).
 -/
 namespace VlsModel.Props.C16
 open VlsModel VlsModel.KVV
@@ -96,43 +97,53 @@ theorem C16_same_version_refused (t : Tab) (s : Redb) (h : Redb.Inv s) (k : Key)
 /-! ### batches -/
 
 /-- **C16_batch_atomic**: a refused batch changes nothing (for redb: neither table nor cache); an
-    accepted batch leaves every key outside the batch alone and, when its keys are pairwise distinct,
-    every entry of the batch is in the store afterwards. -/
+    accepted batch applies *all* its entries in order: every key outside the batch is left alone, every
+    key is answered as after inserting all entries one after the other, and when the keys are pairwise
+    distinct every entry of the batch is in the store afterwards. -/
 theorem C16_batch_atomic (es : List (Key × Rec)) :
     (∀ t : Tab,
       ((Mem.batch t es).2 ≠ .ok → (Mem.batch t es).1 = t) ∧
       ((Mem.batch t es).2 = .ok →
+        (Mem.batch t es).1 = insertAll t es ∧
         (∀ k, (∀ e ∈ es, e.1 ≠ k) → lookup (Mem.batch t es).1 k = lookup t k) ∧
         ((es.map (·.1)).Nodup → ∀ e ∈ es, lookup (Mem.batch t es).1 e.1 = some e.2))) ∧
     (∀ s : Redb, Redb.Inv s →
       ((Redb.batch s es).2 ≠ .ok → (Redb.batch s es).1 = s) ∧
       ((Redb.batch s es).2 = .ok →
+        (Redb.batch s es).1.tab = insertAll s.tab es ∧
         (∀ k, (∀ e ∈ es, e.1 ≠ k) → lookup (Redb.batch s es).1.tab k = lookup s.tab k) ∧
         ((es.map (·.1)).Nodup → ∀ e ∈ es, lookup (Redb.batch s es).1.tab e.1 = some e.2))) := by
   constructor
   · intro t
-    unfold Mem.batch
-    split
-    · exact ⟨fun h => absurd rfl h, fun _ =>
-        ⟨fun k hk => lookup_insertAll_not_mem es t k hk, fun hd e he => lookup_insertAll_distinct es t hd e he⟩⟩
-    · exact ⟨fun _ => rfl, fun h => by cases h⟩
+    rcases Mem.batch_spec t es with ⟨_, h2⟩ | ⟨_, _, h2, _⟩
+    · rw [h2]; exact ⟨fun _ => rfl, fun h => by cases h⟩
+    · rw [h2]
+      exact ⟨fun h => absurd rfl h, fun _ => ⟨rfl, fun k hk => lookup_insertAll_not_mem es t k hk,
+        fun hd e he => lookup_insertAll_distinct es t hd e he⟩⟩
   · intro s h
-    rcases Redb.batch_spec h es with ⟨h1, h2⟩ | ⟨h1, h2, _, _⟩
-    · exact ⟨fun _ => h2, fun hok => by rw [h1] at hok; cases hok⟩
+    rcases Redb.batch_spec h es with ⟨_, h2⟩ | ⟨_, _, h1, h2, _⟩
+    · rw [h2]; exact ⟨fun _ => rfl, fun hok => by cases hok⟩
     · refine ⟨fun hne => absurd h1 hne, fun _ => ?_⟩
       rw [h2]
-      exact ⟨fun k hk => lookup_insertAll_not_mem es s.tab k hk,
+      exact ⟨rfl, fun k hk => lookup_insertAll_not_mem es s.tab k hk,
              fun hd e he => lookup_insertAll_distinct es s.tab hd e he⟩
 
-/-- the redb `unwrap` on a cached-but-missing key is unreachable, and whenever redb accepts a batch
-    the memory store accepts it too and both end with the same table (the F8 disagreement is
-    one-directional: memory accepts, redb refuses) -/
-theorem C16_redb_accepts_mem_accepts (s : Redb) (h : Redb.Inv s) (es : List (Key × Rec)) :
-    (Redb.batch s es).2 ≠ .panic ∧
-    ((Redb.batch s es).2 = .ok → Mem.batch s.tab es = ((Redb.batch s es).1.tab, .ok)) := by
-  rcases Redb.batch_spec h es with ⟨h1, _⟩ | ⟨h1, h2, _, h4⟩
-  · exact ⟨(by rw [h1]; intro hh; cases hh), fun hok => (by rw [h1] at hok; cases hok)⟩
-  · exact ⟨(by rw [h1]; intro hh; cases hh), fun _ => (by simp [Mem.batch, h4, h2])⟩
+/-- **C16_batch_sequential**: in both backends a batch is exactly the sequence of its entries as
+    `put_with_version` calls (`Mem.seqRun`), all or nothing: refused (and nothing changed) iff one call of
+    the sequence is refused; otherwise accepted with every key answered as after that sequence.  The redb
+    `unwrap` on a cached-but-missing key is unreachable. -/
+theorem C16_batch_sequential (es : List (Key × Rec)) (s : Redb) (h : Redb.Inv s) :
+    (Mem.seqRun s.tab es = none ∧ Mem.batch s.tab es = (s.tab, .mismatch) ∧ Redb.batch s es = (s, .mismatch)) ∨
+    (∃ T, Mem.seqRun s.tab es = some T ∧ (Mem.batch s.tab es).2 = .ok ∧ (Redb.batch s es).2 = .ok ∧
+      (Redb.batch s es).1.tab = (Mem.batch s.tab es).1 ∧ ∀ k, lookup (Mem.batch s.tab es).1 k = lookup T k) := by
+  rcases Redb.batch_spec h es with ⟨h1, h2⟩ | ⟨T, h1, h2, h3, _⟩
+  · rcases Mem.batch_spec s.tab es with ⟨_, m2⟩ | ⟨T', m1, _⟩
+    · exact Or.inl ⟨h1, m2, h2⟩
+    · rw [h1] at m1; cases m1
+  · rcases Mem.batch_spec s.tab es with ⟨m1, _⟩ | ⟨T', m1, m2, m3⟩
+    · rw [h1] at m1; cases m1
+    · rw [h1] at m1; cases m1
+      exact Or.inr ⟨T, h1, by rw [m2], h2, by rw [m2]; exact h3, by rw [m2]; exact m3⟩
 
 /-! ### reads return the last accepted write -/
 
@@ -146,8 +157,8 @@ theorem redb_step_agree {s : Redb} (h : Redb.Inv s) {L : KVSpec} (ha : Agree s.t
   cases op with
   | batch es =>
     simp only [Redb.step]
-    rcases Redb.batch_spec h es with ⟨h1, h2⟩ | ⟨h1, h2, _, _⟩
-    · rw [h1, h2]; exact ha
+    rcases Redb.batch_spec h es with ⟨_, h2⟩ | ⟨_, _, h1, h2, _⟩
+    · rw [h2]; exact ha
     · rw [h1, h2]; exact agree_insertAll ha es
   | put k x =>
     obtain ⟨h1, h2, _⟩ := Redb.put_sim h k x
@@ -192,40 +203,37 @@ theorem C16_get_is_ledger (t : Tab) (s : Redb) (L : KVSpec) (k : Key) :
 
 /-! ### memory ≡ redb -/
 
-/-- the full statement: same results and same final contents for every request sequence -/
-def C16_mem_redb_equal : Prop :=
-  ∀ ops : List Op,
-    (runWith Redb.step Redb.empty ops).2 = (runWith Mem.step [] ops).2 ∧
-    (runWith Redb.step Redb.empty ops).1.tab = (runWith Mem.step [] ops).1
-
-/-- F8 witness: existing `(k1,1,x)`, batch `[(k1,2,a),(k1,1,x)]` -/
+/-- F8 witness: existing `(k1,1,x)`, batch `[(k1,2,a),(k1,1,x)]` (kept as a regression example) -/
 def f8 : List Op := [.putV 1 1 [0xaa], .batch [(1, (2, [0xbb])), (1, (1, [0xaa]))]]
 
+/-- **C16_mem_redb_equal** (full strength): for every request sequence — batches repeating keys
+    included — from any redb state satisfying the invariant and the memory store holding the same table
+    (in particular from two empty stores): the same output for every request and the same table at the end. -/
+theorem C16_mem_redb_equal (ops : List Op) :
+    (∀ s : Redb, Redb.Inv s →
+      (runWith Redb.step s ops).2 = (runWith Mem.step s.tab ops).2 ∧
+      (runWith Redb.step s ops).1.tab = (runWith Mem.step s.tab ops).1) ∧
+    ((runWith Redb.step Redb.empty ops).2 = (runWith Mem.step [] ops).2 ∧
+     (runWith Redb.step Redb.empty ops).1.tab = (runWith Mem.step [] ops).1) := by
+  have main : ∀ s : Redb, Redb.Inv s →
+      (runWith Redb.step s ops).2 = (runWith Mem.step s.tab ops).2 ∧
+      (runWith Redb.step s ops).1.tab = (runWith Mem.step s.tab ops).1 := by
+    intro s h
+    have := run_sim Redb.step Mem.step (fun a b => Redb.Inv a ∧ a.tab = b) (fun _ => True)
+      (fun a b op hab _ => by
+        obtain ⟨hi, rfl⟩ := hab
+        obtain ⟨h1, h2⟩ := Redb.step_sim hi op
+        exact ⟨⟨(Redb.step_inv_le hi op).1, h1⟩, h2⟩)
+      ops s s.tab ⟨h, rfl⟩ (fun _ _ => trivial)
+    exact ⟨this.2, this.1.2⟩
+  exact ⟨main, main Redb.empty Redb.inv_empty⟩
+
+/-- the former F8 witness: both stores now refuse the batch and stay where they were -/
 theorem f8_outputs :
-    (runWith Mem.step [] f8).2 = [.res .ok, .res .ok] ∧
-    (runWith Redb.step Redb.empty f8).2 = [.res .ok, .res .mismatch] := by decide
-
-/-- **refuted** for the code as it is -/
-theorem C16_mem_redb_equal_false : ¬ C16_mem_redb_equal := by
-  intro h
-  have := (h f8).1
-  revert this
-  decide
-
-/-- **C16_mem_redb_equal_partial**: for request lists whose batches have pairwise distinct keys, from
-    any redb state satisfying the invariant and the memory store holding the same table: same output
-    for every request and same table at the end. -/
-theorem C16_mem_redb_equal_partial (ops : List Op) (hd : ∀ op ∈ ops, Redb.DistinctBatch op)
-    (s : Redb) (h : Redb.Inv s) :
-    (runWith Redb.step s ops).2 = (runWith Mem.step s.tab ops).2 ∧
-    (runWith Redb.step s ops).1.tab = (runWith Mem.step s.tab ops).1 := by
-  have := run_sim Redb.step Mem.step (fun a b => Redb.Inv a ∧ a.tab = b) Redb.DistinctBatch
-    (fun a b op hab hok => by
-      obtain ⟨hi, rfl⟩ := hab
-      obtain ⟨h1, h2⟩ := Redb.step_sim hi op hok
-      exact ⟨⟨(Redb.step_inv_le hi op).1, h1⟩, h2⟩)
-    ops s s.tab ⟨h, rfl⟩ hd
-  exact ⟨this.2, this.1.2⟩
+    (runWith Mem.step [] f8).2 = [.res .ok, .res .mismatch] ∧
+    (runWith Redb.step Redb.empty f8).2 = [.res .ok, .res .mismatch] ∧
+    (runWith Mem.step [] f8).1 = [(1, (1, [0xaa]))] ∧
+    (runWith Redb.step Redb.empty f8).1.tab = [(1, (1, [0xaa]))] := by decide
 
 /-! ### reopen -/
 
@@ -306,6 +314,36 @@ theorem C16_cloud_ryw (c : Cloud) (lg : Tab) (hp : c.poisoned = false) (hl : c.l
           · right; simp
         · left; exact hins _ _ rfl rfl rfl
 
+/-- "never lowers a version" for the store's *own view* inside a transaction (what `get`/`get_version`
+    answer): an accepted `put_with_version` never makes the version reported for any key smaller. -/
+def C16_cloud_view_mono : Prop :=
+  ∀ (c c' : Cloud) (k k' : Key) (v v' : Nat) (x x' : Val), c.poisoned = false →
+    (Cloud.get c k).2 = some (some (v, x)) → Cloud.putV c k' v' x' = (c', .ok) →
+    ∃ r, (Cloud.get c' k).2 = some (some r) ∧ v ≤ r.1
+
+/-- a transaction that has written `(k1, 5, aa)` -/
+def viewWit : Cloud := { loc := [], log := some [(0, (0, [7])), (1, (5, [0xaa]))], poisoned := false, sid := [7] }
+
+/-- **refuted** for the code as it is (finding F13): the check is against the local store only, so
+    `putv k1 3 bb` is accepted after `putv k1 5 aa` in the same transaction and `get_version k1` goes
+    from 5 to 3.  (The committed local store is not affected: `C16_mono`.) -/
+theorem C16_cloud_view_mono_false : ¬ C16_cloud_view_mono := by
+  intro h
+  obtain ⟨r, h1, h2⟩ := h viewWit (Cloud.putV viewWit 1 3 [0xbb]).1 1 1 5 3 [0xaa] [0xbb] rfl
+    (by decide) (by decide)
+  have hget : (Cloud.get (Cloud.putV viewWit 1 3 [0xbb]).1 1).2 = some (some (3, [0xbb])) := by decide
+  rw [hget] at h1
+  cases h1
+  exact absurd h2 (by decide)
+
+/-- what does hold (**partial**): a write to *another* key never changes the answer, and `put`/`delete`
+    — the only writes the signer's persister issues — always answer with the successor of the committed
+    version (`C16_cloud_ryw`), so a transaction made of `put`/`delete` never lowers its view. -/
+theorem C16_cloud_view_mono_partial (c : Cloud) (lg : Tab) (hp : c.poisoned = false) (hl : c.log = some lg)
+    (k k' : Key) (v : Nat) (x : Val) (hk : k' ≠ k) :
+    (Cloud.get (Cloud.putV c k' v x).1 k).2 = (Cloud.get c k).2 ∨ (Cloud.putV c k' v x).2 ≠ .ok :=
+  (C16_cloud_ryw c lg hp hl k v x).2.2 k' hk
+
 /-- every request except `commit` leaves the local store alone -/
 theorem C16_cloud_local_only_commit (c : Cloud) (op : Op) (h : op ≠ .commit) :
     (Cloud.step c op).1.loc = c.loc := Cloud.step_loc c op h
@@ -344,20 +382,18 @@ theorem C16_cloud_commit_exact (c c1 : Cloud) (m : Tab) (hprep : Cloud.prepare c
   refine ⟨k1, k2, ?_, ?_, ?_⟩
   · intro hok
     rw [k2] at hok; rw [k1]
-    unfold Mem.batch at hok ⊢
-    split
-    · rfl
-    · simp_all
+    rcases Mem.batch_spec c.loc m with ⟨_, h2⟩ | ⟨_, _, h2, _⟩
+    · rw [h2] at hok; cases hok
+    · rw [h2]
   · intro hne
     rw [k2] at hne; rw [k1]
-    unfold Mem.batch at hne ⊢
-    split
-    · simp_all
-    · rfl
+    rcases Mem.batch_spec c.loc m with ⟨_, h2⟩ | ⟨_, _, h2, _⟩
+    · rw [h2]
+    · rw [h2] at hne; exact absurd rfl hne
   · intro r hr
     have := k3 r hr
     subst this
-    exact ⟨rfl, by rw [k1]; simp [Mem.batch, insertAll]⟩
+    exact ⟨rfl, by rw [k1]; rfl⟩
 
 /-- the log invariant (every logged entry is above the committed record of its key) holds along every
     request list from the empty store -/
@@ -372,7 +408,7 @@ theorem C16_cloud_commit_accepted (c c1 : Cloud) (m : Tab) (h : Cloud.Inv c)
     (hprep : Cloud.prepare c = (c1, some m)) :
     (Cloud.commit c1).2 = .ok ∧ (Cloud.commit c1).1.loc = insertAll c.loc m := by
   obtain ⟨k1, k2, k3, _, _⟩ := C16_cloud_commit_exact c c1 m hprep
-  have hall : m.all (entryOk c.loc) = true := by
+  have hacc : Mem.batch c.loc m = (insertAll c.loc m, .ok) := by
     unfold Cloud.prepare at hprep
     split at hprep
     · cases hprep
@@ -383,8 +419,8 @@ theorem C16_cloud_commit_accepted (c c1 : Cloud) (m : Tab) (h : Cloud.Inv c)
         · split at hprep
           · cases hprep; rfl
           · cases hprep
-        · cases hprep; exact Cloud.log_ok h hlg
-  have hok : (Cloud.commit c1).2 = .ok := by rw [k2]; simp [Mem.batch, hall]
+        · cases hprep; exact Cloud.log_accepted h hlg
+  have hok : (Cloud.commit c1).2 = .ok := by rw [k2, hacc]
   exact ⟨hok, k3 hok⟩
 
 /-! ### non-vacuity -/
@@ -401,9 +437,13 @@ example : lookup (runWith Redb.step Redb.empty f8).1.tab 1 = some (1, [0xaa]) :=
 example : (Mem.batch [(1, (1, [1]))] [(1, (2, [2])), (2, (0, [3]))]).2 = .ok := by decide
 example : (Redb.batch ⟨[(1, (1, [1]))], [(1, 1)]⟩ [(2, (0, [3])), (1, (0, [2]))]) = (⟨[(1, (1, [1]))], [(1, 1)]⟩, .mismatch) := by decide
 
-/-- C16_mem_redb_equal_partial: its hypothesis holds for a non-trivial list with accepted and refused writes -/
-example : ∀ op ∈ [Op.putV 1 1 [1], .batch [(1, (2, [2])), (2, (0, [3]))], .putV 1 1 [9], .reopen, .put 2 [4]],
-    Redb.DistinctBatch op := by decide
+/-- C16_batch_sequential: an accepted batch that repeats a key (ascending versions) and a refused one
+    (the former F8 shape), on a store with content -/
+example : Redb.batch ⟨[(1, (1, [1]))], [(1, 1)]⟩ [(1, (2, [2])), (2, (0, [3])), (1, (3, [4]))] =
+    (⟨[(1, (3, [4])), (2, (0, [3]))], [(1, 3), (2, 0)]⟩, .ok) := by decide
+example : Mem.batch [(1, (1, [1]))] [(1, (2, [2])), (2, (0, [3])), (1, (3, [4]))] =
+    ([(1, (3, [4])), (2, (0, [3]))], .ok) := by decide
+example : Mem.batch [(1, (1, [1]))] [(1, (2, [2])), (1, (1, [1]))] = ([(1, (1, [1]))], .mismatch) := by decide
 
 example : Cloud.Inv (Cloud.empty [7]) := Cloud.inv_empty _
 
